@@ -11,6 +11,7 @@ EXPLANATION = (
     "(interprocedural written-but-unsynced summaries); (4) only the frozen writer set appends to / rewrites / renames the log; "
     "(5) the append offset derives from the end of valid data. "
     "It does not decide that replay reconstructs the right state."
+    " Added in the build round: C01.7 log scanners reset their pending buffer at BeginTx; C01.8 write-then-rename — every rename in Wal::rewrite_as_snapshot is dominated by the Ok arm of a sync of the completely written replacement log."
 )
 ASSUMPTIONS = [
     "a must-sync call site is one whose every resolved target syncs Pager.file on all of its success paths",
